@@ -160,12 +160,14 @@ class Path:
         s.fn_hits = set()
         s.depth = 0
         s.max_depth = 0
+        s.expired = False
 
     # ---------------------------------------------------------------- solver
     def add(s, c):
         s.solver.add(c); s.pc_n += 1
 
     def check(s, extra):
+        if s.expired: raise PathEnd('unsupported', 'path wall-clock limit exceeded')
         t0 = time.time()
         r = s.solver.check(extra)
         if r == z3.unknown:
@@ -644,6 +646,7 @@ class Interp:
                     for d, v in new: regs[d] = v
                 p.steps += n
                 if p.steps > p.limits.max_steps: raise PathEnd('budget', 'step budget exhausted (%d IR instructions)' % p.steps)
+                if p.expired: raise PathEnd('unsupported', 'path wall-clock limit exceeded')
                 nxt = None
                 while k < n:
                     ins = insts[k]; k += 1
